@@ -119,6 +119,9 @@ def check_index(ctx, tag, ix, labels, absent, info):
             g = ix.iloc[i]
             if not same_label(tuple(g) if hier and not isinstance(g, tuple) else g, lab):
                 return ctx.violation(f'{tag}|iloc', **info, position=i, got=repr(g), expected=lab)
+        if hier and labels:
+            # a key with more or fewer components than the depth is no label of this hierarchy
+            absent = list(absent) + [tuple(labels[0]) + (labels[0][-1],), tuple(labels[-1]) + (0, 0)] + ([tuple(labels[0][:-1])] if len(labels[0]) > 2 else [])
         for a in absent:
             if any(pyset_key(a) == pyset_key(l) for l in labels):
                 continue
@@ -365,6 +368,46 @@ def run_hier_construct(case, ctx):
                         continue
                     absent = [t for t in pool if t not in tuples] + [('z', 9) + (('q',) if len(pool[0]) == 3 else ())]
                     check_index(ctx, f'hier|{route}', ix, tuples, absent, info)
+                    if route == 'from_labels' and len(pool[0]) == 3:
+                        for realised in (False, True):
+                            for cname, count in (('level_drop(1)', 1), ('level_drop(2)', 2), ('level_drop(-1)', -1), ('level_drop(-2)', -2)):
+                                src = sf.IndexHierarchy.from_labels(tuples)
+                                if realised:
+                                    src.values
+                                if count > 0:
+                                    exp_d = [t[count:] if len(t[count:]) > 1 else t[count] for t in tuples]
+                                    valid = distinct(exp_d) and (count == 2 or tree_ordered(exp_d))
+                                    # the implementation joins the subtrees of different former parents side by side and refuses when their labels at the new outer depth
+                                    # repeat (a refusal, not a wrong index): only drops whose intermediate outer labels stay distinct across parents are demanded
+                                    for c_ in range(1, count + 1):
+                                        firsts = []
+                                        for t in tuples:
+                                            key_ = (t[:c_], t[c_]) if c_ < len(t) else None
+                                            if key_ and key_ not in firsts:
+                                                firsts.append(key_)
+                                        if len({k_[1] for k_ in firsts}) < len(firsts):
+                                            valid = None
+                                else:
+                                    exp_d = []
+                                    for t in tuples:
+                                        p_ = t[:count] if len(t[:count]) > 1 else t[0]
+                                        if not exp_d or exp_d[-1] != p_:
+                                            exp_d.append(p_)       # removing inner depths collapses the rows of one parent (documented)
+                                    valid = True
+                                ctx.transition()
+                                info3 = dict(route=cname, source=tuples, realised=realised)
+                                try:
+                                    dd = src.level_drop(count)
+                                except Exception as e:
+                                    if valid:
+                                        ctx.violation(f'hier|{cname}|raises-{type(e).__name__}', **info3, error=repr(e))
+                                    continue
+                                if valid is None:
+                                    continue    # accepted although refusable: then checked below only if it is a proper index
+                                if not valid:
+                                    ctx.violation(f'hier|{cname}|duplicate-or-non-tree-result-accepted', **info3, got=[tuple(x) if isinstance(x, (tuple, np.ndarray)) else x for x in dd])
+                                    continue
+                                check_index(ctx, f'hier|{cname}', dd, exp_d, [('zz', 9)] if isinstance(exp_d[0], tuple) else ['zz'], info3)
                     if route == 'from_labels' and n >= 2 and len(set(tuples)) == n:
                         # derived by re-ordering rows (roll, positional and label lists): the result is checked as an index of its own when the new
                         # order is a tree, and must be refused (never silently accepted with diverging views) when it is not
